@@ -159,14 +159,20 @@ NoReallocInCap(o, p, c) ==                                                     \
         /\ o.hd[T(c)].len + Max(Len(Concat(c.x)), IF c.v = "chars" THEN c.n ELSE 0) <= o.hd[T(c)].cap) =>
      (c.dA + c.dR = 0 /\ p.hd[T(c)].pc = o.hd[T(c)].pc /\ p.hd[T(c)].pid = o.hd[T(c)].pid)
 
+\* appending str pieces through an iterator is a series of appends: however many growth steps it took, the capacity it ends
+\* with is at most 1.5 x the text it ends with (the pieces' COUNT is not something to reserve for)
+GrowthIter(o, p, c) ==
+  (c.op \in {"extend", "collect"} /\ c.v = "strs" /\ c.cls = "ok" /\ c.m = 0 /\ c.dA + c.dR > 0 /\ p.hd[T(c)].k = "H") =>
+     p.hd[T(c)].cap <= Max(p.hd[T(c)].len + (p.hd[T(c)].len \div 2), 0)
 Growth(o, p, c) ==                                                             \* C12
-  (c.op \in (AppendOps \cup {"reserve"}) /\ c.cls = "ok" /\ c.dA + c.dR > 0 /\ p.hd[T(c)].k = "H"
-     /\ ~(c.op = "reserve" /\ PIsSym(c.n))) =>
-     LET l    == o.hd[T(c)].len
-         lo   == l + (l \div 2)
-         add  == IF c.op = "reserve" THEN c.n ELSE Len(c.s)
-         need == l + add IN
-     p.hd[T(c)].cap >= lo /\ p.hd[T(c)].cap <= Max(lo, need)
+  /\ GrowthIter(o, p, c)
+  /\ (c.op \in (AppendOps \cup {"reserve"}) /\ c.cls = "ok" /\ c.dA + c.dR > 0 /\ p.hd[T(c)].k = "H"
+        /\ ~(c.op = "reserve" /\ PIsSym(c.n))) =>
+       LET l    == o.hd[T(c)].len
+           lo   == l + (l \div 2)
+           add  == IF c.op = "reserve" THEN c.n ELSE Len(c.s)
+           need == l + add IN
+       p.hd[T(c)].cap >= lo /\ p.hd[T(c)].cap <= Max(lo, need)
 
 ShrinkPost(o, p, c) ==                                                         \* C13
   (c.op = "shrink_to" /\ c.cls = "ok") =>
